@@ -7,6 +7,7 @@ import (
 	"math/rand"
 	"net"
 	"os"
+	"runtime"
 	"strconv"
 	"sync"
 	"sync/atomic"
@@ -98,4 +99,61 @@ func TestVerifPoolRace(t *testing.T) {
 	if double.Load() != 0 || open != 0 {
 		t.Fatalf("VERIF-POOL double=%d open=%d", double.Load(), open)
 	}
+}
+
+// qConn: a connection whose Close only records that it happened
+type qConn struct {
+	net.Conn
+	closed atomic.Bool
+}
+
+func (c *qConn) Close() error { c.closed.Store(true); return nil }
+
+// TestVerifPutShutdown: a stream of connections is being handed back to the pool (Put) when it
+// is shut down. Whatever the interleaving, no connection given to Put may still be open once
+// Shutdown and every Put have returned: Shutdown closes what the pool holds, a Put that comes too
+// late closes what it was given.
+func TestVerifPutShutdown(t *testing.T) {
+	rounds, _ := strconv.Atoi(os.Getenv("VERIF_PUT_ROUNDS"))
+	if rounds <= 0 {
+		rounds = 200
+	}
+	const putters = 16
+	for r := 0; r < rounds; r++ {
+		p := NewWebSocketPool(1<<20, 1<<20, time.Minute)
+		var stop atomic.Bool
+		var wg sync.WaitGroup
+		handed := make([][]*qConn, putters)
+		started := make(chan struct{}, putters)
+		for g := 0; g < putters; g++ {
+			wg.Add(1)
+			go func(g int) {
+				defer wg.Done()
+				started <- struct{}{}
+				for i := 0; !stop.Load() && i < 4000; i++ {
+					c := &qConn{}
+					handed[g] = append(handed[g], c)
+					p.Put(fmt.Sprintf("b%d", g%3), c)
+				}
+			}(g)
+		}
+		for g := 0; g < putters; g++ {
+			<-started
+		}
+		for i := 0; i < r%7; i++ {
+			runtime.Gosched()
+		}
+		time.Sleep(time.Duration(r%5) * 100 * time.Microsecond)
+		p.Shutdown()
+		stop.Store(true)
+		wg.Wait()
+		for g := range handed {
+			for _, c := range handed[g] {
+				if !c.closed.Load() {
+					t.Fatalf("VERIF-POOL round %d: a connection handed to Put around Shutdown is still open after both returned", r)
+				}
+			}
+		}
+	}
+	fmt.Printf("put-shutdown done rounds=%d\n", rounds)
 }
